@@ -58,7 +58,9 @@ def _b_files(mk, uk, ls):
                       "module app", uk, "use geom", "use facade, only: root_t", "use facade2", "type(tol_t) :: v", "type(shape) :: w", "type(root_t) :: z", "type(root2_t) :: z2",
                       "procedure(area_iface), pointer :: pp",
                       # B extends A's type and overrides one of its bindings (spelled in another letter case); the other one is inherited
-                      "type, extends(shape) :: square", "integer :: side", "contains", "procedure :: describe => describe_square", "end type square",
+                      "interface ext_gen", "module procedure area_shape", "end interface ext_gen",
+                      "type, extends(shape) :: square", "integer :: side", "contains", "procedure :: describe => describe_square",
+                      "procedure, nopass :: ext_run => describe_shape", "end type square",
                       "contains", "subroutine describe_square(self)", "class(square) :: self", "end subroutine describe_square",
                       "end module app",
                       # every kind of program unit can use a module of the other project
@@ -85,7 +87,11 @@ def _observe(p):
     sq = [t for t in app.types if choice.apply(lambda n: str(n).lower() == "square", t.name) is True]
     binds = sorted((str(b.name).lower(), _classify(b)) for b in sq[0].boundprocs) if sq else "MISSING"
     found = p.find("shared")
-    return {"use kinds": used["kinds"], "use geom": used["geom"],
+    ext_run = [b for b in (sq[0].boundprocs if sq else []) if str(b.name).lower() == "ext_run"]
+    gen = [i for i in app.interfaces if str(i.name).lower() == "ext_gen"]
+    return {"target of binding ext_run": choice.apply(_classify, ext_run[0].bindings[0]) if ext_run and ext_run[0].bindings else "unresolved",
+            "specific of interface ext_gen": (choice.apply(_classify, gen[0].modprocs[0].procedure)
+                                              if gen and gen[0].modprocs and getattr(gen[0].modprocs[0], "procedure", None) is not None else "unresolved"),"use kinds": used["kinds"], "use geom": used["geom"],
             "type(tol_t)": choice.apply(_classify, vs[0].proto[0]) if vs and vs[0].proto else "unresolved",
             "type(shape)": choice.apply(_classify, vs[1].proto[0]) if len(vs) > 1 and vs[1].proto else "unresolved",
             "type(root_t)": choice.apply(_classify, vs[2].proto[0]) if len(vs) > 2 and vs[2].proto else "unresolved",
@@ -108,7 +114,9 @@ def rule(local_kinds, local_shared):
             "type(tol_t)": "local" if local_kinds else "external", "type(shape)": "external", "type(root_t)": "external", "type(root2_t)": "external", "procedure(area_iface)": "external",
             "find(shared)": "local" if local_shared else "external", "block data: type(shape)": "external",
             # B's own `describe` replaces A's `Describe`; `area` is inherited from A
-            "bindings of square": [("area", "external"), ("describe", "local")]}
+            "bindings of square": [("area", "external"), ("describe", "local"), ("ext_run", "local")],
+            # B may name a procedure of A as a specific of its own generic interface or as the target of a binding
+            "target of binding ext_run": "external", "specific of interface ext_gen": "external"}
 
 
 def replay_ext(w):
@@ -117,6 +125,8 @@ def replay_ext(w):
         with contextlib.redirect_stdout(io.StringIO()), contextlib.redirect_stderr(io.StringIO()):
             p = parserh.project_concrete(_b_files(*w["slots"]), external={"a": d}, **PSET)
         got = _observe(p)
+    except (AttributeError, KeyError, TypeError, IndexError, ValueError) as ex:
+        return True, {"b": _b_files(*w["slots"])["b.f90"], "ford aborted with": type(ex).__name__ + ": " + str(ex)[:200]}
     finally:
         shutil.rmtree(d, ignore_errors=True)
     import json
@@ -146,13 +156,20 @@ def local_first(ctx):
             h.state = (mk, uk, ls)
             if kf:
                 E.assume(choice.apply(lambda x: not x, ls[1]))
-            with contextlib.redirect_stdout(io.StringIO()), contextlib.redirect_stderr(io.StringIO()):
-                p = parserh.project(_b_files(mk[0], uk, ls[0]), external={"a": d}, **PSET)
-                got = _observe(p)
+            try:
+                with contextlib.redirect_stdout(io.StringIO()), contextlib.redirect_stderr(io.StringIO()):
+                    p = parserh.project(_b_files(mk[0], uk, ls[0]), external={"a": d}, **PSET)
+                    got = _observe(p)
+            except (AttributeError, KeyError, TypeError, IndexError, ValueError) as ex:
+                E.reachable("correlated")
+                h.want = choice.apply(rule, mk[1], ls[1])
+                E.require(False, "B's run aborts on a use of A's entities: " + type(ex).__name__ + ": " + str(ex)[:80])
+                return
             E.reachable("correlated")
             want = choice.apply(rule, mk[1], ls[1])
             h.want = want
-            for k in ("use kinds", "use geom", "type(tol_t)", "type(shape)", "type(root_t)", "type(root2_t)", "procedure(area_iface)", "find(shared)", "bindings of square", "block data: type(shape)"):
+            for k in ("use kinds", "use geom", "type(tol_t)", "type(shape)", "type(root_t)", "type(root2_t)", "procedure(area_iface)", "find(shared)", "bindings of square", "block data: type(shape)",
+                      "target of binding ext_run", "specific of interface ext_gen"):
                 E.require(choice.apply(lambda g, w_, k=k: g == w_[k], got[k], want), f"{k}: wrong side (local/external) chosen")
 
         E = sym.Engine(ctx, max_paths=20000, incremental=True)
